@@ -1,3 +1,236 @@
 package main
 
-func (ex *Exec) instantiateFacts(r *Term) {}
+// Contract-mode facts. Each fact is a true statement about the IEEE-754 operation (correctly rounded
+// + - * / are monotone and sign-correct) or about the documented contract of a math function.
+// They are instantiated per application (and per pair of applications of the same function) and
+// added to the path condition, so that relational claims (monotonicity, ordering) become decidable
+// without bit-blasting dividers. The code's structure (which operand, which branch) is the real SSA.
+
+import "math"
+
+func (ex *Exec) fpc(s Sort, f float64) *Term {
+	if s.K == SF32 {
+		return ex.ts.F32Const(float32(f))
+	}
+	return ex.ts.F64Const(f)
+}
+
+func (ex *Exec) finite(x *Term) *Term {
+	return ex.ts.Not(ex.ts.Or(ex.ts.FpIsNaN(x), ex.ts.FpIsInf(x)))
+}
+func (ex *Exec) notNaN(x *Term) *Term { return ex.ts.Not(ex.ts.FpIsNaN(x)) }
+
+func (ex *Exec) le(a, b *Term) *Term { return ex.ts.FpCmp(OFpLe, a, b) }
+func (ex *Exec) lt(a, b *Term) *Term { return ex.ts.FpCmp(OFpLt, a, b) }
+func (ex *Exec) feq(a, b *Term) *Term { return ex.ts.FpCmp(OFpEq, a, b) }
+
+func (ex *Exec) fact(c *Term) {
+	if c.IsConst() {
+		return
+	}
+	ex.pc = append(ex.pc, c)
+	if ex.model != nil {
+		if v, ok := ex.ev.eval(c); !ok || v == 0 {
+			ex.model = nil
+		}
+	}
+}
+
+func (ex *Exec) absLe(x *Term, m float64) *Term {
+	return ex.ts.And(ex.le(ex.fpc(x.S, -m), x), ex.le(x, ex.fpc(x.S, m)))
+}
+
+func (ex *Exec) instantiateFacts(r *Term) {
+	ts := ex.ts
+	imp := ts.Implies
+	and := ts.And
+	s := r.S
+	zero, one := ex.fpc(s, 0), ex.fpc(s, 1)
+	// magnitude thresholds below which + - * cannot overflow
+	big, small, half := 1e300, 1e290, 1e150
+	if s.K == SF32 {
+		big, small, half = 1e37, 1e30, 1e18
+	}
+	switch r.Name {
+	case "fadd32", "fadd64", "fsub32", "fsub64":
+		x, y := r.Args[0], r.Args[1]
+		ex.fact(imp(and(ex.absLe(x, big), ex.absLe(y, big)), ex.finite(r)))
+		ex.fact(imp(and(ex.absLe(x, small), ex.finite(y)), ex.finite(r)))
+		ex.fact(imp(and(ex.absLe(y, small), ex.finite(x)), ex.finite(r)))
+	case "fmul32", "fmul64":
+		x, y := r.Args[0], r.Args[1]
+		ex.fact(imp(and(ex.absLe(x, half), ex.absLe(y, half)), ex.finite(r)))
+		ex.fact(imp(and(ex.absLe(x, 1), ex.finite(y)), ex.finite(r)))
+		ex.fact(imp(and(ex.absLe(y, 1), ex.finite(x)), ex.finite(r)))
+	case "fdiv32", "fdiv64":
+		x, y := r.Args[0], r.Args[1]
+		ex.fact(imp(and(ex.finite(x), ts.Or(ex.le(one, y), ex.le(y, ex.fpc(s, -1)))), ex.finite(r)))
+	case "math_log1p":
+		x := r.Args[0]
+		ex.fact(imp(ex.le(zero, x), ex.le(r, x)))
+	}
+	ex.noteAssume("contract-mode floating point: + - * / and math.Pow/Exp/Log/Log1p/Sqrt are uninterpreted functions constrained by their IEEE-754 / documented contracts (monotone, sign-correct, identities x/x=1, x*1=x, x+0=x, Pow(2,0)=1, Pow(2,-1)=0.5, Exp(0)=1, Log1p(0)=0)")
+	switch r.Name {
+	case "fdiv32", "fdiv64":
+		x, y := r.Args[0], r.Args[1]
+		pos := ex.lt(zero, y)
+		orNaN := func(c *Term) *Term { return ts.Or(c, ts.FpIsNaN(r)) }
+		ex.fact(imp(and(ex.feq(x, y), and(ex.finite(x), ts.Not(ex.feq(x, zero)))), ex.feq(r, one)))
+		ex.fact(imp(ex.feq(y, one), ts.Or(ex.feq(r, x), and(ts.FpIsNaN(x), ts.FpIsNaN(r)))))
+		ex.fact(imp(and(ex.feq(x, ts.FpUn(OFpNeg, y, 0)), and(ex.finite(x), ts.Not(ex.feq(x, zero)))), ex.feq(r, ex.fpc(s, -1))))
+		ex.fact(imp(and(ex.le(zero, x), pos), orNaN(ex.le(zero, r))))
+		ex.fact(imp(and(ex.le(x, zero), pos), orNaN(ex.le(r, zero))))
+		ex.fact(imp(and(and(ex.le(zero, x), ex.le(x, y)), and(pos, ex.finite(y))), ex.le(r, one)))
+		ex.fact(imp(and(ex.le(y, x), pos), orNaN(ex.le(one, r))))
+		// NaN exactly in the invalid cases
+		nan := ts.Or(ts.Or(ts.FpIsNaN(x), ts.FpIsNaN(y)), ts.Or(and(ex.feq(x, zero), ex.feq(y, zero)), and(ts.FpIsInf(x), ts.FpIsInf(y))))
+		ex.fact(ts.Eq(ts.FpIsNaN(r), nan))
+		ex.fact(imp(and(ex.finite(x), and(ts.FpIsInf(y), pos)), ex.feq(r, zero)))
+		for _, o := range ex.fpApps {
+			if o == r || o.Name != r.Name {
+				continue
+			}
+			x2, y2 := o.Args[0], o.Args[1]
+			ok := and(ex.notNaN(r), ex.notNaN(o))
+			// same positive divisor: monotone in the dividend
+			ex.fact(imp(and(ok, and(and(ex.feq(y, y2), pos), ex.le(x, x2))), ex.le(r, o)))
+			ex.fact(imp(and(ok, and(and(ex.feq(y, y2), pos), ex.le(x2, x))), ex.le(o, r)))
+			// same non-negative dividend: antitone in a positive divisor
+			ex.fact(imp(and(ok, and(and(ex.feq(x, x2), ex.le(zero, x)), and(pos, ex.le(y, y2)))), ex.le(o, r)))
+			ex.fact(imp(and(ok, and(and(ex.feq(x, x2), ex.le(zero, x)), and(ex.lt(zero, y2), ex.le(y2, y)))), ex.le(r, o)))
+			// same non-positive dividend: monotone in a positive divisor
+			ex.fact(imp(and(ok, and(and(ex.feq(x, x2), ex.le(x, zero)), and(pos, ex.le(y, y2)))), ex.le(r, o)))
+			ex.fact(imp(and(ok, and(and(ex.feq(x, x2), ex.le(x, zero)), and(ex.lt(zero, y2), ex.le(y2, y)))), ex.le(o, r)))
+		}
+	case "fmul32", "fmul64":
+		x, y := r.Args[0], r.Args[1]
+		ex.fact(imp(ex.feq(x, one), ts.Or(ex.feq(r, y), and(ts.FpIsNaN(y), ts.FpIsNaN(r)))))
+		ex.fact(imp(ex.feq(y, one), ts.Or(ex.feq(r, x), and(ts.FpIsNaN(x), ts.FpIsNaN(r)))))
+		ex.fact(imp(and(ex.feq(x, zero), ex.finite(y)), ex.feq(r, zero)))
+		ex.fact(imp(and(ex.feq(y, zero), ex.finite(x)), ex.feq(r, zero)))
+		ex.fact(imp(and(ex.le(zero, x), ex.le(zero, y)), ts.Or(ex.le(zero, r), ts.FpIsNaN(r))))
+		ex.fact(imp(and(ex.le(x, zero), ex.le(zero, y)), ts.Or(ex.le(r, zero), ts.FpIsNaN(r))))
+		ex.fact(imp(and(ex.le(zero, x), ex.le(y, zero)), ts.Or(ex.le(r, zero), ts.FpIsNaN(r))))
+		ex.fact(ts.Eq(ts.FpIsNaN(r), ts.Or(ts.Or(ts.FpIsNaN(x), ts.FpIsNaN(y)), ts.Or(and(ex.feq(x, zero), ts.FpIsInf(y)), and(ts.FpIsInf(x), ex.feq(y, zero))))))
+		// scaling by a factor in [0,1] never increases a non-negative finite value
+		ex.fact(imp(and(and(ex.le(zero, x), ex.le(x, one)), and(ex.le(zero, y), ex.finite(y))), and(ex.le(r, y), ex.le(zero, r))))
+		ex.fact(imp(and(and(ex.le(zero, y), ex.le(y, one)), and(ex.le(zero, x), ex.finite(x))), and(ex.le(r, x), ex.le(zero, r))))
+		// scaling by a factor >= 1 never decreases a non-negative value
+		ex.fact(imp(and(ex.le(one, x), ex.le(zero, y)), ts.Or(ex.le(y, r), ts.FpIsNaN(r))))
+		ex.fact(imp(and(ex.le(one, y), ex.le(zero, x)), ts.Or(ex.le(x, r), ts.FpIsNaN(r))))
+		for _, o := range ex.fpApps {
+			if o == r || o.Name != r.Name {
+				continue
+			}
+			for _, perm := range [][4]*Term{{x, y, o.Args[0], o.Args[1]}, {x, y, o.Args[1], o.Args[0]}, {y, x, o.Args[0], o.Args[1]}, {y, x, o.Args[1], o.Args[0]}} {
+				a, k, a2, k2 := perm[0], perm[1], perm[2], perm[3]
+				// same non-negative factor k: monotone in the other factor (unless a result is NaN)
+				c := and(and(ex.feq(k, k2), ex.le(zero, k)), and(ex.notNaN(r), ex.notNaN(o)))
+				ex.fact(imp(and(c, ex.le(a, a2)), ex.le(r, o)))
+				ex.fact(imp(and(c, ex.le(a2, a)), ex.le(o, r)))
+			}
+		}
+	case "fadd32", "fadd64":
+		x, y := r.Args[0], r.Args[1]
+		ex.fact(imp(ex.feq(y, zero), ts.Or(ex.feq(r, x), and(ts.FpIsNaN(x), ts.FpIsNaN(r)))))
+		ex.fact(imp(ex.feq(x, zero), ts.Or(ex.feq(r, y), and(ts.FpIsNaN(y), ts.FpIsNaN(r)))))
+		ex.fact(ts.Eq(ts.FpIsNaN(r), ts.Or(ts.Or(ts.FpIsNaN(x), ts.FpIsNaN(y)), and(and(ts.FpIsInf(x), ts.FpIsInf(y)), ts.Not(ts.Eq(ex.lt(x, zero), ex.lt(y, zero)))))))
+		ex.fact(imp(and(ex.le(zero, y), ex.notNaN(x)), ts.Or(ex.le(x, r), ts.FpIsNaN(r))))
+		ex.fact(imp(and(ex.le(y, zero), ex.notNaN(x)), ts.Or(ex.le(r, x), ts.FpIsNaN(r))))
+		ex.fact(imp(and(ex.le(zero, x), ex.notNaN(y)), ts.Or(ex.le(y, r), ts.FpIsNaN(r))))
+		ex.fact(imp(and(ex.le(x, zero), ex.notNaN(y)), ts.Or(ex.le(r, y), ts.FpIsNaN(r))))
+		for _, o := range ex.fpApps {
+			if o == r || o.Name != r.Name {
+				continue
+			}
+			for _, perm := range [][4]*Term{{x, y, o.Args[0], o.Args[1]}, {x, y, o.Args[1], o.Args[0]}, {y, x, o.Args[0], o.Args[1]}, {y, x, o.Args[1], o.Args[0]}} {
+				a, k, a2, k2 := perm[0], perm[1], perm[2], perm[3]
+				c := and(ex.feq(k, k2), and(ex.notNaN(r), ex.notNaN(o)))
+				ex.fact(imp(and(c, ex.le(a, a2)), ex.le(r, o)))
+				ex.fact(imp(and(c, ex.le(a2, a)), ex.le(o, r)))
+			}
+		}
+	case "fsub32", "fsub64":
+		x, y := r.Args[0], r.Args[1]
+		ex.fact(imp(ex.feq(y, zero), ts.Or(ex.feq(r, x), and(ts.FpIsNaN(x), ts.FpIsNaN(r)))))
+		ex.fact(imp(and(ex.feq(x, y), ex.finite(x)), ex.feq(r, zero)))
+		ex.fact(ts.Eq(ts.FpIsNaN(r), ts.Or(ts.Or(ts.FpIsNaN(x), ts.FpIsNaN(y)), and(and(ts.FpIsInf(x), ts.FpIsInf(y)), ts.Eq(ex.lt(x, zero), ex.lt(y, zero))))))
+		ex.fact(imp(and(ex.le(zero, y), ex.notNaN(x)), ts.Or(ex.le(r, x), ts.FpIsNaN(r))))
+		ex.fact(imp(and(ex.le(y, zero), ex.notNaN(x)), ts.Or(ex.le(x, r), ts.FpIsNaN(r))))
+		ex.fact(imp(ex.le(y, x), ts.Or(ex.le(zero, r), ts.FpIsNaN(r))))
+		ex.fact(imp(ex.le(x, y), ts.Or(ex.le(r, zero), ts.FpIsNaN(r))))
+		for _, o := range ex.fpApps {
+			if o == r || o.Name != r.Name {
+				continue
+			}
+			x2, y2 := o.Args[0], o.Args[1]
+			fin := and(ex.notNaN(r), ex.notNaN(o))
+			// same minuend: antitone in the subtrahend; same subtrahend: monotone in the minuend
+			ex.fact(imp(and(and(ex.feq(x, x2), fin), ex.le(y, y2)), ex.le(o, r)))
+			ex.fact(imp(and(and(ex.feq(x, x2), fin), ex.le(y2, y)), ex.le(r, o)))
+			ex.fact(imp(and(and(ex.feq(y, y2), fin), ex.le(x, x2)), ex.le(r, o)))
+			ex.fact(imp(and(and(ex.feq(y, y2), fin), ex.le(x2, x)), ex.le(o, r)))
+		}
+	case "math_pow":
+		b, e := r.Args[0], r.Args[1]
+		two := ex.fpc(s, 2)
+		isTwo := ex.feq(b, two)
+		ex.fact(imp(and(isTwo, ex.feq(e, zero)), ex.feq(r, one)))
+		ex.fact(imp(and(isTwo, ex.feq(e, ex.fpc(s, -1))), ex.feq(r, ex.fpc(s, 0.5))))
+		ex.fact(imp(and(isTwo, ex.le(e, zero)), and(ex.le(zero, r), ex.le(r, one))))
+		ex.fact(imp(and(isTwo, ex.le(zero, e)), ex.le(one, r)))
+		ex.fact(imp(and(isTwo, ex.notNaN(e)), ex.notNaN(r)))
+		for _, o := range ex.fpApps {
+			if o == r || o.Name != r.Name {
+				continue
+			}
+			same := and(isTwo, ex.feq(o.Args[0], two))
+			ex.fact(imp(and(same, ex.le(e, o.Args[1])), ex.le(r, o)))
+			ex.fact(imp(and(same, ex.le(o.Args[1], e)), ex.le(o, r)))
+		}
+	case "math_exp":
+		e := r.Args[0]
+		ex.fact(imp(ex.feq(e, zero), ex.feq(r, one)))
+		ex.fact(imp(ex.le(e, zero), and(ex.le(zero, r), ex.le(r, one))))
+		ex.fact(imp(ex.le(zero, e), ex.le(one, r)))
+		ex.fact(imp(ex.notNaN(e), and(ex.notNaN(r), ex.le(zero, r))))
+		for _, o := range ex.fpApps {
+			if o == r || o.Name != r.Name {
+				continue
+			}
+			ex.fact(imp(ex.le(e, o.Args[0]), ex.le(r, o)))
+			ex.fact(imp(ex.le(o.Args[0], e), ex.le(o, r)))
+		}
+	case "math_log1p", "math_log", "math_sqrt", "math_log2", "math_log10", "math_tanh":
+		x := r.Args[0]
+		switch r.Name {
+		case "math_log1p":
+			ex.fact(imp(ex.feq(x, zero), ex.feq(r, zero)))
+			ex.fact(imp(ex.le(zero, x), ex.le(zero, r)))
+			ex.fact(imp(ex.le(zero, x), ex.notNaN(r)))
+			ex.fact(imp(and(ex.le(zero, x), ex.finite(x)), ex.finite(r)))
+		case "math_log", "math_log2", "math_log10":
+			ex.fact(imp(ex.feq(x, one), ex.feq(r, zero)))
+			ex.fact(imp(ex.le(one, x), ex.le(zero, r)))
+		case "math_sqrt":
+			ex.fact(imp(ex.le(zero, x), ex.le(zero, r)))
+			ex.fact(imp(ex.feq(x, zero), ex.feq(r, zero)))
+			ex.fact(imp(ex.feq(x, one), ex.feq(r, one)))
+		case "math_tanh":
+			ex.fact(imp(ex.notNaN(x), and(ex.le(ex.fpc(s, -1), r), ex.le(r, one))))
+		}
+		for _, o := range ex.fpApps {
+			if o == r || o.Name != r.Name {
+				continue
+			}
+			dom := ts.True()
+			if r.Name != "math_tanh" {
+				dom = and(ex.le(zero, x), ex.le(zero, o.Args[0]))
+			}
+			ex.fact(imp(and(dom, ex.le(x, o.Args[0])), ex.le(r, o)))
+			ex.fact(imp(and(dom, ex.le(o.Args[0], x)), ex.le(o, r)))
+		}
+	}
+}
+
+var _ = math.Abs
